@@ -242,3 +242,45 @@ Definition expand_table (dims orow ocol : list nat) (ts : tspec)
                  | Ok None => []
                  | e => [(x, y, e)]
                  end) labels) labels)).
+
+(* ---- flat numeric encodings of the same values (keeps the correspondence output small) -------- *)
+Definition flatZ (dims digits : list nat) : Z :=
+  fold_left (fun acc dn => (acc * Z.of_nat (snd dn) + Z.of_nat (fst dn))%Z) (combine digits dims) 0%Z.
+
+Definition prodZ (dims : list nat) : Z := fold_left (fun acc n => (acc * Z.of_nat n)%Z) dims 1%Z.
+
+(* 0 = zero entry, 1 + r*C + c = operator entry (r,c) (flat, row-major), -1 = error *)
+Definition code_elem (orow ocol : list nat) (e : result (option (list nat * list nat))) : Z :=
+  match e with
+  | Ok (Some (r, c)) => (1 + flatZ orow r * prodZ ocol + flatZ ocol c)%Z
+  | Ok None => 0%Z
+  | Error _ => (-1)%Z
+  end.
+
+(* [1] if the call is rejected, else 0 :: N :: result dims ++ one number per entry that is not zero:
+   (x*D + y) * (R*C + 1) + code, or -(x*D + y) - 1 when the model cannot evaluate the entry *)
+Definition expand_table_z (dims orow ocol : list nat) (ts : tspec) : list Z :=
+  match expand_plan dims orow ocol ts with
+  | Error _ => [1%Z]
+  | Ok p =>
+      let rd := p_rdims p in
+      let D := prodZ rd in
+      let M := (prodZ orow * prodZ ocol + 1)%Z in
+      let labels := map (fun x => (flatZ rd x, x)) (all_digits rd) in
+      0%Z :: Z.of_nat (length rd) :: map Z.of_nat rd ++
+      flat_map (fun ix => flat_map (fun iy =>
+                  let pos := (fst ix * D + fst iy)%Z in
+                  match code_elem orow ocol (plan_elem p (snd ix) (snd iy)) with
+                  | Z0 => []
+                  | Zpos c => [(pos * M + Zpos c)%Z]
+                  | Zneg _ => [(- pos - 1)%Z]
+                  end) labels) labels
+  end.
+
+(* same header, then the code of each queried entry *)
+Definition expand_pairs_z (dims orow ocol : list nat) (ts : tspec) (pairs : list (list nat * list nat)) : list Z :=
+  match expand_dims dims orow ocol ts with
+  | Error _ => [1%Z]
+  | Ok rd => 0%Z :: Z.of_nat (length rd) :: map Z.of_nat rd ++
+             map (fun xy => code_elem orow ocol (expand_elem dims orow ocol ts (fst xy) (snd xy))) pairs
+  end.
